@@ -201,6 +201,7 @@ Quiescent == /\ \A l \in Leaders : lup[l] /\ lrd[l] = Len(lwal[l])
 \* accepted points routed to its partition; redundant followers are equal
 Converged == Quiescent => \A f \in Followers, t \in Tables : Have(f, t) = Routed(f, t)
 
-\* printed once per simulated behaviour, at its last state
-Emit == TLCGet("level") = Depth => PrintT(<<"ZVSIM", ToJson(hist)>>)
+\* printed once per simulated behaviour, at its last state (the depth bound, or a
+\* state in which nothing is left to do)
+Emit == (TLCGet("level") = Depth \/ ~ENABLED Next) => PrintT(<<"ZVSIM", ToJson(hist)>>)
 =============================================================================
